@@ -38,6 +38,16 @@ type c07Prof struct {
 	// part of a report entry's identity at function granularity differs (function start lines and
 	// file names, line numbers, addresses, mapping range / build id / file), names stay.
 	Build int `json:"build,omitempty"`
+	// Sym > 0: the same binary (same mapping, same addresses) symbolized differently: at some
+	// addresses the function is renamed, the line number differs, file / start line differ, or
+	// (Sym 2) there is no symbol information at all.
+	Sym int `json:"sym,omitempty"`
+	// IDs: id scheme of the tables: 0 dense 1..n rotated, 1 sparse / huge, 2 shifted (100+k).
+	IDs int `json:"ids,omitempty"`
+	// Extra unused locations in the table (the table holds only the locations the samples use, plus these)
+	Extra int `json:"extra,omitempty"`
+	// Aslr: the mapping is loaded Aslr*0x100000 higher (same build id: the mappings must merge)
+	Aslr int `json:"aslr,omitempty"`
 }
 
 // c07Case is the self-contained replay form of one case.
@@ -51,6 +61,7 @@ type c07Case struct {
 	Normalize bool       `json:"normalize,omitempty"`
 	Index     string     `json:"sample_index,omitempty"` // sample type name
 	Ratios    [][2]int64 `json:"ratios,omitempty"`       // scalen: num/den per column
+	Gran      string     `json:"granularity,omitempty"`  // "" (functions) | lines | files | addresses
 	// kind "many": Sources/Bases hold the distinct profiles, the plans say which one stands at each
 	// position of the (long) source and base lists
 	Plan     []int `json:"plan,omitempty"`
@@ -153,6 +164,51 @@ func c07Factor(u string) int64 {
 	return 1
 }
 
+type c07LineSpec struct {
+	name, file  string
+	start, line int64
+}
+
+// c07LocLines: what profile variant (build b, symbolization sym) says about universe location j;
+// nil = no symbol information.
+func c07LocLines(j, b, sym int) []c07LineSpec {
+	var out []c07LineSpec
+	for k, f := range c07LocFuncs[j] {
+		ls := c07LineSpec{name: c07FuncName(f), file: fmt.Sprintf("src/f%d.go", f), start: int64(10*f + 1 + 100*b), line: int64(10*f + 2 + j + k + 103*b)}
+		if b > 0 {
+			ls.file = fmt.Sprintf("build%d/src/f%d.go", b, f)
+		}
+		if sym > 0 {
+			switch (j + sym) % 4 {
+			case 1:
+				ls.name += fmt.Sprintf(".v%d", sym)
+			case 2:
+				ls.line += int64(50 * sym)
+			case 3:
+				if sym == 2 {
+					return nil
+				}
+				ls.file, ls.start = "alt/"+ls.file, ls.start+5
+			}
+		}
+		out = append(out, ls)
+	}
+	return out
+}
+
+func c07ID(scheme, k, n, shift int) uint64 {
+	switch scheme {
+	case 1:
+		if k%2 == 0 {
+			return 1<<40 + uint64(k)*977 + uint64(shift)
+		}
+		return uint64(1000*(k+1) + shift)
+	case 2:
+		return uint64(100 + k)
+	}
+	return uint64((k+shift)%n) + 1
+}
+
 // c07Build makes a real profile from the abstract one. shift permutes the ids so that merging
 // has to match entities semantically.
 func c07Build(a *c07Prof, shift int) *profile.Profile {
@@ -164,38 +220,71 @@ func c07Build(a *c07Prof, shift int) *profile.Profile {
 	if b < 0 || b > 3 {
 		b = 0
 	}
-	mstart := uint64(0x1000 + b*0x10000)
+	mstart := uint64(0x1000+b*0x10000) + uint64(a.Aslr%8)*0x100000
 	m := &profile.Mapping{ID: uint64(1 + b), Start: mstart, Limit: mstart + 0x1000, File: "/nonexistent/c07prog", BuildID: "c07",
 		HasFunctions: true, HasFilenames: true, HasLineNumbers: true, HasInlineFrames: true}
+	if a.IDs != 0 {
+		m.ID = uint64(7 + 10*a.IDs)
+	}
 	if b > 0 {
-		m.File, m.BuildID = fmt.Sprintf("/nonexistent/build%d/c07prog", b), fmt.Sprintf("c07-build%d", b)
+		m.File, m.BuildID = fmt.Sprintf("/nonexistent/build%d/c07prog-b%d", b, b), fmt.Sprintf("c07-build%d", b)
 	}
 	p.Mapping = []*profile.Mapping{m}
-	fns := make([]*profile.Function, c07NFuncs)
-	for i := 0; i < c07NFuncs; i++ {
-		fns[i] = &profile.Function{ID: uint64((i+shift)%c07NFuncs) + 1, Name: c07FuncName(i), SystemName: c07FuncName(i),
-			Filename: fmt.Sprintf("src/f%d.go", i), StartLine: int64(10*i + 1 + 100*b)}
-		if b > 0 {
-			fns[i].Filename = fmt.Sprintf("build%d/src/f%d.go", b, i)
+	nl := len(c07LocFuncs)
+	// the table holds the locations the samples use plus a.Extra unused ones
+	used := make([]bool, nl)
+	for _, s := range a.Samples {
+		for _, j := range s.Stack {
+			used[((j%nl)+nl)%nl] = true
 		}
 	}
-	p.Function = append(p.Function, fns...)
-	sort.Slice(p.Function, func(i, j int) bool { return p.Function[i].ID < p.Function[j].ID })
-	nl := len(c07LocFuncs)
-	locs := make([]*profile.Location, nl)
+	for j, e := 0, a.Extra; j < nl && e > 0; j++ {
+		if !used[(j*5+shift)%nl] {
+			used[(j*5+shift)%nl] = true
+			e--
+		}
+	}
+	var js []int
 	for j := 0; j < nl; j++ {
-		l := &profile.Location{ID: uint64((j+2*shift)%nl) + 1, Mapping: m, Address: mstart + uint64(j)*16 + uint64(b)*0x200}
-		for k, f := range c07LocFuncs[j] {
-			l.Line = append(l.Line, profile.Line{Function: fns[f], Line: int64(10*f + 2 + j + k + 100*b + 3*b)})
+		if used[j] {
+			js = append(js, j)
+		}
+	}
+	type fkey struct {
+		name, file string
+		start      int64
+	}
+	fns := map[fkey]*profile.Function{}
+	var fkeys []fkey
+	locs := make([]*profile.Location, nl)
+	for _, j := range js {
+		l := &profile.Location{Mapping: m, Address: mstart + uint64(j)*16 + uint64(b)*0x200}
+		for _, ls := range c07LocLines(j, b, a.Sym) {
+			k := fkey{ls.name, ls.file, ls.start}
+			if fns[k] == nil {
+				fns[k] = &profile.Function{Name: ls.name, SystemName: ls.name, Filename: ls.file, StartLine: ls.start}
+				fkeys = append(fkeys, k)
+			}
+			l.Line = append(l.Line, profile.Line{Function: fns[k], Line: ls.line})
 		}
 		locs[j] = l
 	}
-	p.Location = append(p.Location, locs...)
-	sort.Slice(p.Location, func(i, j int) bool { return p.Location[i].ID < p.Location[j].ID })
+	for k, fk := range fkeys {
+		fns[fk].ID = c07ID(a.IDs, k, len(fkeys), shift)
+		p.Function = append(p.Function, fns[fk])
+	}
+	for k, j := range js {
+		locs[j].ID = c07ID(a.IDs, k, len(js), 2*shift)
+		p.Location = append(p.Location, locs[j])
+	}
+	sort.Slice(p.Function, func(i, j int) bool { return p.Function[i].ID < p.Function[j].ID })
+	if a.IDs != 1 { // the sparse scheme also leaves the table unsorted
+		sort.Slice(p.Location, func(i, j int) bool { return p.Location[i].ID < p.Location[j].ID })
+	}
 	for _, s := range a.Samples {
 		ps := &profile.Sample{Value: append([]int64(nil), s.Values...)}
 		for _, j := range s.Stack {
-			ps.Location = append(ps.Location, locs[j%nl])
+			ps.Location = append(ps.Location, locs[((j%nl)+nl)%nl])
 		}
 		if s.Tag != "" {
 			ps.Label = map[string][]string{"t": {s.Tag}}
@@ -220,25 +309,32 @@ func c07StackStr(st []int) string {
 	return strings.Join(ss, ",")
 }
 
-func c07ParseStack(s string) []int {
-	if s == "" {
-		return nil
-	}
-	var out []int
-	for _, f := range strings.Split(s, ",") {
-		var x int
-		fmt.Sscan(f, &x)
-		out = append(out, x)
-	}
-	return out
+// intern tables of a run: a location is identified by WHAT IT SAYS (address relative to its
+// mapping start within the universe, and per line function name, file, start line, line) — never
+// by ids, absolute addresses or mapping ids.  Used only from the sequential checking phase.
+type c07Intern struct {
+	loc      map[string]int
+	locNodes [][]int // location id -> function-name ids, leaf first
+	fn       map[string]int
+	fnNames  []string
 }
 
-// c07Abstract reads a real profile (an output of pprof) back into the abstract form; it fails on
-// anything that is not made of the universe.
-func c07Abstract(p *profile.Profile) (*c07Prof, []bool, error) {
+func (t *c07Intern) fnID(name string) int {
+	if id, ok := t.fn[name]; ok {
+		return id
+	}
+	t.fn[name] = len(t.fnNames)
+	t.fnNames = append(t.fnNames, name)
+	return len(t.fnNames) - 1
+}
+
+// c07Abstract reads a real profile (an input as built, or an output of pprof) into the abstract
+// form with interned semantic locations; it fails on anything that is not made of the universe.
+func (run *c07Run) abstract(p *profile.Profile) (*c07Prof, []bool, error) {
+	t := run.intern
 	a := &c07Prof{}
-	for _, t := range p.SampleType {
-		a.Types = append(a.Types, c07Type{t.Type, t.Unit})
+	for _, ty := range p.SampleType {
+		a.Types = append(a.Types, c07Type{ty.Type, ty.Unit})
 	}
 	var base []bool
 	for _, s := range p.Sample {
@@ -252,15 +348,27 @@ func c07Abstract(p *profile.Profile) (*c07Prof, []bool, error) {
 			if off/0x200 > 3 || j >= len(c07LocFuncs) {
 				return nil, nil, fmt.Errorf("location not of the universe")
 			}
-			if len(l.Line) != len(c07LocFuncs[j]) {
-				return nil, nil, fmt.Errorf("location %d: %d lines, want %d", j, len(l.Line), len(c07LocFuncs[j]))
-			}
-			for k, ln := range l.Line {
-				if ln.Function == nil || ln.Function.Name != c07FuncName(c07LocFuncs[j][k]) {
-					return nil, nil, fmt.Errorf("location %d line %d: wrong function", j, k)
+			var parts []string
+			var nodes []int
+			for _, ln := range l.Line {
+				if ln.Function == nil {
+					return nil, nil, fmt.Errorf("line without function")
 				}
+				parts = append(parts, fmt.Sprintf("%s;%s;%d;%d", ln.Function.Name, ln.Function.Filename, ln.Function.StartLine, ln.Line))
+				nodes = append(nodes, t.fnID(ln.Function.Name))
 			}
-			as.Stack = append(as.Stack, j)
+			if len(l.Line) == 0 {
+				// no symbol information: its own report node (shown under the object file's name), not compared by name
+				nodes = append(nodes, t.fnID("\x00unsymbolized"))
+			}
+			desc := fmt.Sprintf("%d|%s", j, strings.Join(parts, ","))
+			id, ok := t.loc[desc]
+			if !ok {
+				id = len(t.locNodes)
+				t.loc[desc] = id
+				t.locNodes = append(t.locNodes, nodes)
+			}
+			as.Stack = append(as.Stack, id)
 		}
 		b := false
 		for k, vs := range s.Label {
@@ -282,12 +390,40 @@ func c07Abstract(p *profile.Profile) (*c07Prof, []bool, error) {
 	return a, base, nil
 }
 
+// semantic: the case with every input replaced by what its built profile says (interned
+// semantic stacks); all expectations are computed from this form.
+func (run *c07Run) semantic(cs *c07Case) (*c07Case, error) {
+	sc := *cs
+	sc.Sources, sc.Bases = nil, nil
+	conv := func(ps []c07Prof) ([]c07Prof, error) {
+		var out []c07Prof
+		for k := range ps {
+			a, _, err := run.abstract(c07Build(&ps[k], k+1))
+			if err != nil {
+				return nil, err
+			}
+			a.Build = ps[k].Build
+			out = append(out, *a)
+		}
+		return out, nil
+	}
+	var err error
+	if sc.Sources, err = conv(cs.Sources); err != nil {
+		return nil, err
+	}
+	if sc.Bases, err = conv(cs.Bases); err != nil {
+		return nil, err
+	}
+	return &sc, nil
+}
+
 // ---- runner ---------------------------------------------------------------------------------
 
 type c07Run struct {
-	c   *Ctx
-	tmp string
-	mu  sync.Mutex
+	c      *Ctx
+	tmp    string
+	mu     sync.Mutex
+	intern *c07Intern
 }
 
 func runC07(c *Ctx) {
@@ -305,7 +441,7 @@ func runC07(c *Ctx) {
 	if os.Getenv("C07_KEEP") == "" {
 		defer os.RemoveAll(tmp)
 	}
-	run := &c07Run{c: c, tmp: tmp}
+	run := &c07Run{c: c, tmp: tmp, intern: &c07Intern{loc: map[string]int{}, fn: map[string]int{}}}
 	if c.Replay != "" {
 		var cs c07Case
 		if err := c.LoadReplay(&cs); err != nil {
